@@ -6,6 +6,7 @@ open RgVerif RgVerif.Exit RgVerif.ExitSpec
 Requests
   c15.run   (cfg MODE par quiet stats messages implicit matchesPossible setupOk) PARSE (items ITEM…)
   c15.spec  (cfg …) (items ITEM…)        -- the contract applied to the whole list `all`
+  c15.stats (cfg …) (items ITEM…)        -- the --stats summary: model S W | -   spec S W
   c15.guard (cfg …) (items ITEM…)        -- pipeHit of C15_pipe; kindIntact: --pre leaves the error kinds alone
 MODE = search | files; PARSE = ok | err | special
 ITEM = w (walker error) | s (skipped entry) | (f ID SR WR) | (pf ID SR WR) (file searched through --pre),
@@ -81,6 +82,15 @@ def handle (cmd : String) (args : List Sx) : String :=
       let m := specMatched c all
       let e := specErrored c all
       s!"exit {specExit m e c.quiet} matched {b m} errored {b e} out {showList ((all.filterMap (okId c)).map toString)} diags {showList ((all.filterMap (diagOf c)).map showDiag)}"
+    | _, _ => "bad-op"
+  | "c15.stats", [cfg, items] =>
+    match parseCfg cfg, parseItems items with
+    | some c, some raw =>
+      let model := match statsPrinted c (raw.map seen) with
+        | some st => s!"{st.searches} {st.withMatch}"
+        | none => "-"
+      let sp := specStats (raw.map (·.2))
+      s!"model {model} spec {sp.searches} {sp.withMatch}"
     | _, _ => "bad-op"
   | "c15.guard", [cfg, items] =>
     match parseCfg cfg, parseItems items with
